@@ -355,6 +355,25 @@ fn types_depth2() -> Vec<T> {
             }
         }
     }
+    // every atom united with every depth-1 type (the matcher factory special-cases unions by the shape of their members:
+    // none_or_basic, any_of_two_basic, ...), and lists / variable tuples of every two-atom union
+    for x in &a {
+        for y in &d1 {
+            if matches!(y, T::Union(_)) {
+                continue;
+            }
+            container_unions.push(T::Union(vec![x.clone(), y.clone()]));
+        }
+    }
+    for (i, x) in a.iter().enumerate() {
+        for y in a.iter().skip(i + 1) {
+            let u = T::Union(vec![x.clone(), y.clone()]);
+            container_unions.push(T::List(Some(Box::new(u.clone()))));
+            container_unions.push(T::Dict(Some((Box::new(T::Str), Box::new(u.clone())))));
+            container_unions.push(T::Dict(Some((Box::new(u.clone()), Box::new(T::Any)))));
+            container_unions.push(T::TupleVar(Box::new(u)));
+        }
+    }
     let mut all = a.clone();
     all.extend(d1.clone());
     all.extend(container_unions);
